@@ -171,6 +171,21 @@ func (v *FV) constVal(c *ssa.Const) TV {
 func (v *FV) setVal(fr *Frame, x ssa.Value, t Term) TV {
 	s := v.sortOf(x.Type())
 	name := v.define(fr.prefix+x.Name(), s, t)
+	if s == "Slice" && strings.HasPrefix(t, "(mk_slice ") && name != t {
+		if f := strings.Fields(t); len(f) > 1 {
+			a := f[1]
+			if strings.HasPrefix(a, "(sl_arr ") {
+				// re-slicing: same backing array as the source slice
+				src := strings.TrimSuffix(strings.TrimPrefix(a, "(sl_arr "), ")")
+				if known, ok := v.sliceArr[src]; ok {
+					a = known
+				}
+			}
+			if !strings.HasPrefix(a, "(") {
+				v.sliceArr[name] = a
+			}
+		}
+	}
 	tv := TV{T: name, Ty: x.Type(), Sort: s}
 	fr.vals[x] = tv
 	return tv
@@ -208,12 +223,12 @@ func (v *FV) load(st *State, l *Loc) Term {
 	case 1:
 		return v.loadField(st.snap, l.st, l.fi, l.ref)
 	case 2:
-		return fmt.Sprintf("(select %s %s)", v.heapGet(st.snap, l.arr), l.ref)
+		return v.rd(st.snap, l.arr, l.ref)
 	case 3:
 		if l.slice != "" {
-			return v.sliceElem(v.heapGet(st.snap, l.arr), l.es, l.slice, l.pidx)
+			return v.sliceElemAt(st.snap, l.arr, l.es, l.slice, l.pidx)
 		}
-		return fmt.Sprintf("(select (select %s %s) %s)", v.heapGet(st.snap, l.arr), l.ref, l.idx)
+		return fmt.Sprintf("(select %s %s)", v.rd(st.snap, l.arr, l.ref), l.idx)
 	case 4:
 		return v.loadStruct(st.snap, l.ty, l.ref)
 	case 5:
@@ -227,10 +242,9 @@ func (v *FV) store(st *State, l *Loc, val Term) {
 	case 1:
 		v.storeField(st.snap, l.st, l.fi, l.ref, val)
 	case 2:
-		v.heapSet(st.snap, l.arr, fmt.Sprintf("(store %s %s %s)", v.heapGet(st.snap, l.arr), l.ref, val))
+		v.wr(st.snap, l.arr, l.ref, val)
 	case 3:
-		h := v.heapGet(st.snap, l.arr)
-		v.heapSet(st.snap, l.arr, fmt.Sprintf("(store %s %s (store (select %s %s) %s %s))", h, l.ref, h, l.ref, l.idx, val))
+		v.wr(st.snap, l.arr, l.ref, fmt.Sprintf("(store %s %s %s)", v.rd(st.snap, l.arr, l.ref), l.idx, val))
 	case 4:
 		v.storeStruct(st.snap, l.ty, l.ref, val)
 	case 5:
@@ -332,12 +346,20 @@ func (v *FV) modifiedIn(fr *Frame, blocks map[*ssa.BasicBlock]bool) map[string]b
 				case *ssa.MapUpdate:
 					if m, ok := in.Map.Type().Underlying().(*types.Map); ok {
 						d, val := v.mapArrays(m)
-						mod[d], mod[val], mod[v.mapLenArray()] = true, true, true
+						sfx := ""
+						if staticNew(in.Map, 0) {
+							sfx = "$n"
+						}
+						mod[d+sfx], mod[val+sfx], mod[v.mapLenArray()+sfx] = true, true, true
 					}
 				case *ssa.Next:
 					if rg, ok := in.Iter.(*ssa.Range); ok {
 						if m, ok := rg.X.Type().Underlying().(*types.Map); ok {
-							mod[v.rangeVisitedArray(m)] = true
+							sfx := ""
+							if staticNew(rg.X, 0) {
+								sfx = "$n"
+							}
+							mod[v.rangeVisitedArray(m)+sfx] = true
 						}
 					}
 				case *ssa.Go:
@@ -361,10 +383,53 @@ func (v *FV) modifiedIn(fr *Frame, blocks map[*ssa.BasicBlock]bool) map[string]b
 	if all {
 		return nil
 	}
-	return mod
+	// names recorded as "A" stand for both physical arrays; "A$n" alone means only objects
+	// allocated by this function are written
+	out := map[string]bool{}
+	for a := range mod {
+		out[a] = true
+		if !strings.HasSuffix(a, "$n") {
+			out[a+"$n"] = true
+		}
+	}
+	return out
+}
+
+// staticNew: the object the value refers to is allocated by the current function.
+func staticNew(x ssa.Value, depth int) bool {
+	if depth > 6 {
+		return false
+	}
+	switch x := x.(type) {
+	case *ssa.Alloc, *ssa.MakeSlice, *ssa.MakeMap, *ssa.MakeClosure:
+		return true
+	case *ssa.FieldAddr:
+		return staticNew(x.X, depth+1)
+	case *ssa.IndexAddr:
+		return staticNew(x.X, depth+1)
+	case *ssa.Slice:
+		return staticNew(x.X, depth+1)
+	case *ssa.Call:
+		if b, ok := x.Call.Value.(*ssa.Builtin); ok && b.Name() == "append" {
+			return true
+		}
+	}
+	return false
 }
 
 func (v *FV) addrArrays(addr ssa.Value, mod map[string]bool, all *bool) {
+	if staticNew(addr, 0) {
+		tmp := map[string]bool{}
+		v.addrArrays2(addr, tmp, all)
+		for a := range tmp {
+			mod[a+"$n"] = true
+		}
+		return
+	}
+	v.addrArrays2(addr, mod, all)
+}
+
+func (v *FV) addrArrays2(addr ssa.Value, mod map[string]bool, all *bool) {
 	switch a := addr.(type) {
 	case *ssa.FieldAddr:
 		st := a.X.Type().Underlying().(*types.Pointer).Elem()
@@ -374,7 +439,7 @@ func (v *FV) addrArrays(addr ssa.Value, mod map[string]bool, all *bool) {
 		case *types.Slice:
 			mod[v.elemArray(t.Elem())] = true
 		case *types.Pointer:
-			v.addrArrays(a.X, mod, all)
+			v.addrArrays2(a.X, mod, all)
 		}
 	default:
 		pt, ok := addr.Type().Underlying().(*types.Pointer)
@@ -408,10 +473,20 @@ func (v *FV) fieldArraysRec(st types.Type, i int, mod map[string]bool) {
 func (v *FV) callMods(fr *Frame, cc *ssa.CallCommon, mod map[string]bool, all *bool, depth int, scanFn func(*ssa.Function, int, map[*ssa.BasicBlock]bool)) {
 	if b, ok := cc.Value.(*ssa.Builtin); ok {
 		switch b.Name() {
-		case "append", "copy":
+		case "append":
 			if len(cc.Args) > 0 {
 				if sl, ok := cc.Args[0].Type().Underlying().(*types.Slice); ok {
-					mod[v.elemArray(sl.Elem())] = true
+					mod[v.elemArray(sl.Elem())+"$n"] = true
+				}
+			}
+		case "copy":
+			if len(cc.Args) > 0 {
+				if sl, ok := cc.Args[0].Type().Underlying().(*types.Slice); ok {
+					sfx := ""
+					if staticNew(cc.Args[0], 0) {
+						sfx = "$n"
+					}
+					mod[v.elemArray(sl.Elem())+sfx] = true
 				}
 			}
 		case "delete":
@@ -633,6 +708,7 @@ func (v *FV) execBody(fr *Frame, entry *State) []Exit {
 				exits = append(exits, Exit{st: st, panics: true})
 				terminated = true
 			default:
+				v.curSt = st
 				mayPanic := false
 				if ci, ok := instr.(*ssa.Call); ok && v.quiet == 0 && len(st.defers) > 0 && v.callMayPanic(fr, ci.Common()) {
 					mayPanic = true
@@ -705,6 +781,10 @@ func (v *FV) loopHeader(fr *Frame, li *loopInfo, st *State) *State {
 	}
 	// havoc
 	mod := v.modifiedIn(fr, li.body)
+	if mod != nil {
+		v.regArray("TOP", "(Array Int Int)")
+		mod["TOP"] = true
+	}
 	var frameLocs []string
 	hasFrame := false
 	if fr.con != nil && fr.con.LoopFrame != nil {
@@ -758,7 +838,10 @@ func (v *FV) loopHeader(fr *Frame, li *loopInfo, st *State) *State {
 	if mod == nil {
 		// the loop body calls foreign code: everything is havocked except what it cannot reach
 		v.preserveAcrossHavocIn(st.snap, ns.snap, li.body)
+	} else {
+		v.emit(fmt.Sprintf("(assert (>= %s %s))", v.topOf(ns.snap), v.topOf(st.snap)))
 	}
+	v.curSt = ns
 	for _, instr := range li.header.Instrs {
 		phi, ok := instr.(*ssa.Phi)
 		if !ok {
@@ -1070,18 +1153,16 @@ func (v *FV) execInstr(fr *Frame, st *State, instr ssa.Instruction) {
 		ref := v.newRef(fr.prefix + in.Name())
 		sl := in.Type().Underlying().(*types.Slice)
 		arr := v.elemArray(sl.Elem())
-		h := v.heapGet(st.snap, arr)
-		v.heapSet(st.snap, arr, fmt.Sprintf("(store %s %s %s)", h, ref, v.constArray(v.idx(), v.sortOf(sl.Elem()), v.zero(sl.Elem()))))
+		v.wr(st.snap, arr, ref, v.constArray(v.idx(), v.sortOf(sl.Elem()), v.zero(sl.Elem())))
 		v.oblige("bounds", "", posStr(v.eng.fset, in.Pos()), "makeslice: len out of range", st.reach, fmt.Sprintf("(and (%s %s %s) (%s %s %s))", v.cmpOp("<=", true), v.idxLit(0), ln, v.cmpOp("<=", true), ln, cp))
 		v.setVal(fr, in, fmt.Sprintf("(mk_slice %s %s %s %s)", ref, v.idxLit(0), ln, cp))
 	case *ssa.MakeMap:
 		ref := v.newRef(fr.prefix + in.Name())
 		m := in.Type().Underlying().(*types.Map)
 		dom, _ := v.mapArrays(m)
-		h := v.heapGet(st.snap, dom)
-		v.heapSet(st.snap, dom, fmt.Sprintf("(store %s %s ((as const (Array %s Bool)) false))", h, ref, v.sortOf(m.Key())))
+		v.wr(st.snap, dom, ref, fmt.Sprintf("((as const (Array %s Bool)) false)", v.sortOf(m.Key())))
 		ml := v.mapLenArray()
-		v.heapSet(st.snap, ml, fmt.Sprintf("(store %s %s %s)", v.heapGet(st.snap, ml), ref, v.idxLit(0)))
+		v.wr(st.snap, ml, ref, v.idxLit(0))
 		fr.vals[in] = TV{T: ref, Ty: in.Type(), Sort: "Int"}
 	case *ssa.MapUpdate:
 		m := in.Map.Type().Underlying().(*types.Map)
@@ -1090,13 +1171,13 @@ func (v *FV) execInstr(fr *Frame, st *State, instr ssa.Instruction) {
 		x := v.val(fr, in.Value).T
 		dom, val := v.mapArrays(m)
 		v.oblige("nil", "", posStr(v.eng.fset, in.Pos()), "assignment to entry in nil map", st.reach, fmt.Sprintf("(not (= %s 0))", ref))
-		hd := v.heapGet(st.snap, dom)
-		hv := v.heapGet(st.snap, val)
+		domA := v.define("mdom", fmt.Sprintf("(Array %s Bool)", v.sortOf(m.Key())), v.rd(st.snap, dom, ref))
+		valA := v.rd(st.snap, val, ref)
 		ml := v.mapLenArray()
-		hl := v.heapGet(st.snap, ml)
-		v.heapSet(st.snap, ml, fmt.Sprintf("(store %s %s (ite (select (select %s %s) %s) (select %s %s) %s))", hl, ref, hd, ref, k, hl, ref, v.iadd(fmt.Sprintf("(select %s %s)", hl, ref), v.idxLit(1))))
-		v.heapSet(st.snap, dom, fmt.Sprintf("(store %s %s (store (select %s %s) %s true))", hd, ref, hd, ref, k))
-		v.heapSet(st.snap, val, fmt.Sprintf("(store %s %s (store (select %s %s) %s %s))", hv, ref, hv, ref, k, x))
+		lenT := v.rd(st.snap, ml, ref)
+		v.wr(st.snap, ml, ref, fmt.Sprintf("(ite (select %s %s) %s %s)", domA, k, lenT, v.iadd(lenT, v.idxLit(1))))
+		v.wr(st.snap, dom, ref, fmt.Sprintf("(store %s %s true)", domA, k))
+		v.wr(st.snap, val, ref, fmt.Sprintf("(store %s %s %s)", valA, k, x))
 	case *ssa.Lookup:
 		v.lookup(fr, st, in)
 	case *ssa.Call:
@@ -1138,7 +1219,7 @@ func (v *FV) execInstr(fr *Frame, st *State, instr ssa.Instruction) {
 		if m, ok := in.X.Type().Underlying().(*types.Map); ok {
 			rv := v.rangeVisitedArray(m)
 			ref := v.val(fr, in.X).T
-			v.heapSet(st.snap, rv, fmt.Sprintf("(store %s %s ((as const (Array %s Bool)) false))", v.heapGet(st.snap, rv), ref, v.sortOf(m.Key())))
+			v.wr(st.snap, rv, ref, fmt.Sprintf("((as const (Array %s Bool)) false)", v.sortOf(m.Key())))
 		}
 	case *ssa.Next:
 		v.rangeNext(fr, st, in)
@@ -1237,6 +1318,10 @@ func (v *FV) unop(fr *Frame, st *State, in *ssa.UnOp) {
 			v.assume(st.reach, v.refOK(tv.T))
 		} else {
 			v.assume(st.reach, v.typeFacts(tv.T, in.Type()))
+			if tv.Sort == "Slice" {
+				// the backing array of a slice found in the heap exists
+				v.assume(st.reach, fmt.Sprintf("(< (sl_arr %s) %s)", tv.T, v.topOf(st.snap)))
+			}
 		}
 	case token.NOT:
 		v.setVal(fr, in, fmt.Sprintf("(not %s)", v.val(fr, in.X).T))
@@ -1501,7 +1586,7 @@ func (v *FV) sliceOp(fr *Frame, st *State, in *ssa.Slice) {
 		ref := v.newRef(fr.prefix + in.Name())
 		arr := v.elemArray(at.Elem())
 		l := v.locOf(fr, st, in.X)
-		v.heapSet(st.snap, arr, fmt.Sprintf("(store %s %s %s)", v.heapGet(st.snap, arr), ref, v.load(st, l)))
+		v.wr(st.snap, arr, ref, v.load(st, l))
 		v.note("slice of array pointer at %s: backing store copied (aliasing with the array not modelled)", pos)
 		v.setVal(fr, in, fmt.Sprintf("(mk_slice %s %s %s %s)", ref, lo, v.isub(hi, lo), v.isub(v.idxLit(at.Len()), lo)))
 	default:
@@ -1514,9 +1599,9 @@ func (v *FV) lookup(fr *Frame, st *State, in *ssa.Lookup) {
 	if m, ok := in.X.Type().Underlying().(*types.Map); ok {
 		k := v.val(fr, in.Index).T
 		dom, val := v.mapArrays(m)
-		has := fmt.Sprintf("(and (not (= %s 0)) (select (select %s %s) %s))", x.T, v.heapGet(st.snap, dom), x.T, k)
+		has := fmt.Sprintf("(and (not (= %s 0)) (select %s %s))", x.T, v.rd(st.snap, dom, x.T), k)
 		es := v.sortOf(m.Elem())
-		valT := fmt.Sprintf("(ite %s (select (select %s %s) %s) %s)", has, v.heapGet(st.snap, val), x.T, k, v.zero(m.Elem()))
+		valT := fmt.Sprintf("(ite %s (select %s %s) %s)", has, v.rd(st.snap, val, x.T), k, v.zero(m.Elem()))
 		if in.CommaOk {
 			okN := v.define(fr.prefix+in.Name()+"_ok", "Bool", has)
 			valN := v.define(fr.prefix+in.Name()+"_v", es, valT)
@@ -1567,14 +1652,15 @@ func (v *FV) rangeNext(fr *Frame, st *State, in *ssa.Next) {
 			ref := v.val(fr, rg.X).T
 			dom, val := v.mapArrays(m)
 			rv := v.rangeVisitedArray(m)
-			hrv := v.heapGet(st.snap, rv)
-			facts := []string{fmt.Sprintf("(select (select %s %s) %s)", v.heapGet(st.snap, dom), ref, tvs[1].T), fmt.Sprintf("(not (select (select %s %s) %s))", hrv, ref, tvs[1].T)}
+			domA := v.define("rdom", fmt.Sprintf("(Array %s Bool)", v.sortOf(m.Key())), v.rd(st.snap, dom, ref))
+			visA := v.define("rvis", fmt.Sprintf("(Array %s Bool)", v.sortOf(m.Key())), v.rd(st.snap, rv, ref))
+			facts := []string{fmt.Sprintf("(select %s %s)", domA, tvs[1].T), fmt.Sprintf("(not (select %s %s))", visA, tvs[1].T)}
 			// exhausted: every key of the map has been visited
 			ks := v.sortOf(m.Key())
-			v.assume(st.reach, fmt.Sprintf("(=> (not %s) (forall ((k %s)) (! (=> (select (select %s %s) k) (select (select %s %s) k)) :pattern ((select (select %s %s) k)))))", tvs[0].T, ks, v.heapGet(st.snap, dom), ref, hrv, ref, v.heapGet(st.snap, dom), ref))
-			v.heapSet(st.snap, rv, fmt.Sprintf("(ite %s (store %s %s (store (select %s %s) %s true)) %s)", tvs[0].T, hrv, ref, hrv, ref, tvs[1].T, hrv))
+			v.assume(st.reach, fmt.Sprintf("(=> (not %s) (forall ((k %s)) (! (=> (select %s k) (select %s k)) :pattern ((select %s k)))))", tvs[0].T, ks, domA, visA, domA))
+			v.wr(st.snap, rv, ref, fmt.Sprintf("(ite %s (store %s %s true) %s)", tvs[0].T, visA, tvs[1].T, visA))
 			if tvs[2].Sort == v.sortOf(m.Elem()) {
-				facts = append(facts, fmt.Sprintf("(= %s (select (select %s %s) %s))", tvs[2].T, v.heapGet(st.snap, val), ref, tvs[1].T))
+				facts = append(facts, fmt.Sprintf("(= %s (select %s %s))", tvs[2].T, v.rd(st.snap, val, ref), tvs[1].T))
 			}
 			v.assume(st.reach, fmt.Sprintf("(=> %s (and (not (= %s 0)) %s))", tvs[0].T, ref, strings.Join(facts, " ")))
 			if tvs[2].Sort == "Int" && v.isRefType(m.Elem()) {
